@@ -1028,6 +1028,29 @@ var codecs = []codec{
 	{"jsonx-fast", jsonx.JSONFastMarshal, jsonx.JSONFastUnmarshal},
 }
 
+// keptOutputs: every text MarshalJSON handed out in the current case, with a copy taken at once. The text belongs to
+// the caller: it must read the same after all later encoder and decoder calls of the case (checked at its end).
+// Cases run one after the other in a process, so a package variable will do.
+type keptOutput struct {
+	name      string
+	out, copy []byte
+}
+
+var keptOutputs []keptOutput
+
+func checkKept(res *vkit.Result) {
+	defer func() { keptOutputs = keptOutputs[:0] }()
+	if res.Fail != nil {
+		return
+	}
+	for _, k := range keptOutputs {
+		if !bytes.Equal(k.out, k.copy) {
+			res.Failf("encode/"+k.name+"/retained", "the text %s.MarshalJSON returned was %s; after the later calls of the case the same slice reads %s", k.name, show(k.copy), show(k.out))
+			return
+		}
+	}
+}
+
 // rtJSON: v through MarshalJSON/UnmarshalJSON directly and as a struct member
 // through every library pairing. same(orig, decoded) is the type's equality at
 // its resolution; want(info) the renderings the encoder's text may denote.
@@ -1040,6 +1063,7 @@ func rtJSON[T any](res *vkit.Result, name string, v T, init func() T, same func(
 		res.Failf("encode/"+name, "%s(%s).MarshalJSON failed: %v", name, render(v), err)
 		return
 	}
+	keptOutputs = append(keptOutputs, keptOutput{name, out, append([]byte(nil), out...)})
 	info, ok := readToken(out)
 	if !ok || info.kind != tkString {
 		res.Failf("encode/"+name, "%s(%s).MarshalJSON = %s: not a JSON string token", name, render(v), show(out))
@@ -1123,6 +1147,7 @@ func checkHexPair[V int64 | uint64](res *vkit.Result, name string, base int, v V
 
 func ExecRT(c RTCase) *vkit.Result {
 	res := &vkit.Result{}
+	keptOutputs = keptOutputs[:0]
 	if c.Nsec < 0 || c.Nsec > 999999999 {
 		res.Skip("nsec-out-of-range")
 		c.Nsec = 0
@@ -1274,6 +1299,16 @@ func ExecRT(c RTCase) *vkit.Result {
 	checkHexPair(res, "I64HexV2", 32, c.Dur, tex.I64HexV2, tex.HexI64V2)
 	checkHexPair(res, "U64HexV2", 32, uint64(c.Sec), tex.U64HexV2, tex.HexU64V2)
 
+	// other values through every encoder once more, then the texts handed out earlier are read again
+	if res.Fail == nil {
+		other := []json.Marshaler{tex.JsInt64(^c.I), tex.JsInt64(c.I / 3), tex.JsUInt64(^c.U), tex.UnixStamp(^c.I),
+			tex.JsByte(append([]byte{9, 99, 199}, c.B...)), tex.Duration(^c.Dur), tex.Duration(c.Dur/7 + 1),
+			tex.JsUnixTime(sentinelTime), tex.JsNanoTime(sentinelTime)}
+		for _, o := range other {
+			_, _ = o.MarshalJSON()
+		}
+	}
+	checkKept(res)
 	classifyRT(res, c)
 	return res
 }
